@@ -647,6 +647,11 @@ func (sa *Application) AddAllocationAsk(ask *Allocation) error {
 	if sa.queue == nil || sa.IsCompleted() || sa.IsFailed() || sa.IsExpired() || sa.IsRejected() {
 		return fmt.Errorf("ask %s rejected: application %s is terminated (%s)", ask.GetAllocationKey(), sa.ApplicationID, sa.CurrentState())
 	}
+	// a failing application only waits for its allocations to be released: an ask that was on its way when the
+	// application failed must not be scheduled, the allocation would outlive the application
+	if sa.IsFailing() {
+		return fmt.Errorf("ask %s rejected: application %s is failing", ask.GetAllocationKey(), sa.ApplicationID)
+	}
 	if ask.createTime.Before(sa.submissionTime) {
 		sa.submissionTime = ask.createTime
 	}
